@@ -30,6 +30,7 @@ END token).  Identifiers, literals, comments and layout are identical in all spe
        equals the Lean lexer model's (`lex` + `normTok`).
 The replay of a violation is the pair of programs.
 """
+import common
 from sexp import Sym, dumps
 import gen_oal_text as G
 
@@ -356,7 +357,14 @@ def _short(x):
 
 def _tok_obs(text):
     out = []
-    for t in G.ply_tokens(text + '\n'):
+    try:
+        toks = G.ply_tokens(text + '\n')
+    except Exception as e:
+        if G.lexing_is_harness_fault(text):
+            raise common.HarnessError('the harness-driven lexer raised %s: %s on %r, but oal.parse copes with the same '
+                                      'text' % (type(e).__name__, str(e)[:200], text[:200]))
+        return [Sym('lexer-exception'), type(e).__name__]     # oal.parse fails on it too: D reports that outcome
+    for t in toks:
         kind, lex = t[0], t[1]
         if kind in G.KWSET or kind in ('END_IF', 'END_FOR', 'END_WHILE'):
             lex = ''.join(chr(ord(c) + 32) if 'A' <= c <= 'Z' else c for c in lex)
